@@ -8,6 +8,43 @@ BASE_NOTE = ("Trusted: Coq 8.16.1 kernel/VM, no axioms (Print Assumptions audite
              "the Gen translators and the correspondence harness (differential testing, not proof). The theorems are about the Gallina model; ")
 
 CLAIMED = {
+    "C02": dict(
+        text="Theorems for any set of transceivers in any state: forward_msg calls handle_data_msg for exactly the peers that are not the sender, running, and whose Rx frequency in frame FN "
+             "(fixed or resolved through their own hopping sequence) equals the sender's Tx frequency in FN - once each, in order; forwarding and the tick never fail on any state reachable by "
+             "datagram histories and touch nobody's queue/tuning/power; whole sessions of 2..6 transceivers (real Application wiring) compared with the extracted session model + "
+             "independent reference of the routing rule from the implementation's own state.",
+        note="partial: sockets/select loop/clock thread replaced by in-memory sockets and explicit ticks; delivery = written to the socket; option equality keeps the untuned None == None match "
+             "of children powered on by their parent visible (not claimed as a defect).",
+        technique="Coq proof (induction over the transceiver list, invariants) + Gen + extracted session-model correspondence on the real Application", ref="7-C02"),
+    "C10": dict(
+        text="Theorems: the message handed to send_msg for a burst that is neither muted nor dropped has the sender's FN/TN, the recipient's version, bits mapped 0 -> +127 / non-zero -> -127, "
+             "RSSI = nominal power - attenuation - burst attenuation - 110 or a draw inside the FAKE_RSSI window, ToA256 = draw in window - 256 x TA, C/I in window, modulation by burst length, "
+             "TSC detection sound (the reported sequence is present at its position) and exact for generator-built access bursts; datagram = documented layout, v0 followed by two padding octets; "
+             "defaults and the training-sequence table regenerated and proved equal to the hand-typed 45.002 tables; sessions with the real RandBurstGen compared with the model + independent metadata reference.",
+        note="partial: c10_tsc_generated for normal/sync bursts (no earlier-enumerated sequence matching inside the random payload) is not proved, only exercised by correspondence with the real generator; "
+             "random draws are an explicit oracle list (randint replaced by lo + r mod (hi-lo+1) in the harness).",
+        technique="Coq proof + Gen tables by reflection + extracted session-model correspondence + metadata oracle", ref="7-C10"),
+    "C11": dict(
+        text="Machine-checked for the regenerated real tables: for all 35 rows of the task <-> (combination, lchan, SACCH) table, all tn 0..7 and all current frames of the hyperframe: firmware block starts equal "
+             "trxcon bid-0 frames per direction; TCH and SACCH/T agree frame by frame incl. TCH/H sub-channels; burst ids cyclic; every fn lookup stays inside the table; masks cover the channels used; "
+             "every (config, tn) lookup is valid or NULL; both stacks report the same RSL channel number for every row.",
+        note="Finite: sweeps over one 102/104-frame cycle per row lifted by proved periodicity lemmas. The table pairing is specification content, cross-checked by chan_nr. On-air frame = cur + SCHEDULE_AHEAD. "
+             "NONE layout (period 0) excluded (unreachable); IDLE exempt from bid and mask checks.",
+        technique="Coq proof (vm_compute sweeps + periodicity lemmas) over Gen tables dumped through the real C symbols + correspondence with the real mframe_schedule()/layout lookup + oracle on recorded calls", ref="7-C11"),
+    "C12": dict(
+        text="Theorems: a power event sets exactly the affected transceivers (self + children of a managing parent), power-off clears queue and hopping; after any event history running = last effective event; "
+             "control datagrams change power only through POWEROFF / a POWERON that finds the transceiver idle and tuned or hopping; invariant over ALL control datagram histories: clock links = running clock owners, "
+             "no duplicates, generator runs iff non-empty; port plan injective; sessions through the real Application constructor (random --trx wiring) vs the model + reference of the documented semantics, "
+             "port plan and clock-indication destinations observed on the created sockets.",
+        note="partial: thread liveness of the clock generator is equated with start()/stop() calls (fake thread); configurations whose children own no clock (what Application builds).",
+        technique="Coq proof (invariant over histories) + Gen + extracted session-model correspondence + port/links oracle on the real objects", ref="7-C12"),
+    "C15": dict(
+        text="For every list of valid Tx/Rx messages: append writes tag + BE16 length + message records; a full read returns them in order, equal in every carried field; parse_msg(i) is the i-th / None; "
+             "skip/count select exactly firstn count (skipn skip ms); for every cut offset k, reading the first k octets returns exactly the messages whose records end at or before k, without exception; "
+             "13 Coq theorems on a model built on the TRXD codec model (C01 round trips reused), tags/HDR_LENGTH regenerated, differential correspondence with the real DATADumpFile (BytesIO and on-disk).",
+        note="Non-Tx/Rx objects, non-integer skip/count and damage other than a clean cut are outside the theorems (damaged files: correspondence only). On a cut file with a surviving 3-octet header "
+             "parse_all(skip = complete+1) returns [] instead of False (stated as c15_truncation_slice; not a violation of the statement).",
+        technique="Coq proof over an executable model + Gen by reflection + extracted model vs real class (index, skip/count grid, truncation at every offset, damaged files)", ref="7-C15"),
     "C01": dict(
         text="Theorems for all messages: gen_msg/parse_msg round trip for TxMsg (exact) and RxMsg (every field the version carries; v0/v1, all six modulations x TSC sets x TSC, NOPE, "
              "both burst lengths, soft bits in [-127,127]), legacy padding irrelevant, every in-range message encodable; modulation table, ranges and the four 256-entry translate tables "
